@@ -260,6 +260,41 @@ func refactorTree(dir, kind string) error {
 					n++
 					return true
 				})
+			case "extract-cond":
+				// if <cond> { … }   →   condZqN := <cond>; if condZqN { … }     (no init statement; not an else-if)
+				ext := func(list []ast.Stmt) []ast.Stmt {
+					var out []ast.Stmt
+					for _, st := range list {
+						if is, ok := st.(*ast.IfStmt); ok && is.Init == nil {
+							if _, bare := ast.Unparen(is.Cond).(*ast.Ident); !bare {
+								n++
+								name := fmt.Sprintf("condZq%d", n)
+								out = append(out, &ast.AssignStmt{Lhs: []ast.Expr{ast.NewIdent(name)}, Tok: token.DEFINE, Rhs: []ast.Expr{is.Cond}})
+								is.Cond = ast.NewIdent(name)
+								changed = true
+							}
+						}
+						out = append(out, st)
+					}
+					return out
+				}
+				ast.Inspect(file, func(x ast.Node) bool {
+					switch b := x.(type) {
+					case *ast.BlockStmt:
+						if len(b.List) > 0 {
+							switch b.List[0].(type) {
+							case *ast.CaseClause, *ast.CommClause:
+								return true
+							}
+						}
+						b.List = ext(b.List)
+					case *ast.CaseClause:
+						b.Body = ext(b.Body)
+					case *ast.CommClause:
+						b.Body = ext(b.Body)
+					}
+					return true
+				})
 			case "split-and":
 				// if a && b { S }  →  if a { if b { S } }      (no else branch)
 				ast.Inspect(file, func(x ast.Node) bool {
